@@ -8,6 +8,7 @@ import (
 	"fmt"
 	"math"
 	"math/rand"
+	"strings"
 )
 
 var (
@@ -16,7 +17,12 @@ var (
 	envNames  = []string{"FOO", "BAR", "BAZ", "QUX"}
 	envVals   = []string{"1", "two", "", "x=y", "a b", "-z"}
 	mntDests  = []string{"/", "/a", "/a/b", "/a/b/c", "/b", "/a-b", "/a/c", "/etc/x", "/b/c/d/e", "/a.b"}
-	mntSrcs   = []string{"/src/0", "/src/1", "/tmp", "/", "tmpfs", ""}
+	mntSrcs   = []string{"/src/0", "/src/1", "/tmp", "/", "tmpfs", "", hostShared, hostSlave, hostPrivate}
+	// mount sources under the private mount namespace bin/check sets up for this check
+	// (shared, slave of it, private); elsewhere they measure as private like any other path
+	hostShared  = "/run/verifmnt/sh"
+	hostSlave   = "/run/verifmnt/sl"
+	hostPrivate = "/run/verifmnt/pr"
 	mntTypes  = []string{"bind", "tmpfs", ""}
 	mntOpts   = []string{"ro", "rw", "rbind", "nosuid", "rprivate", "relabel"}
 	devPaths  = []string{"/dev/a", "/dev/b", "/dev/c", "/dev/d"}
@@ -106,6 +112,10 @@ func genMount(r *rand.Rand, dest string) MountJ {
 	if r.Intn(40) == 0 {
 		// needs a shared host mount under the source: an error class on hosts without one
 		m.Options = append(m.Options, pick(r, []string{"rshared", "rslave"}))
+	} else if strings.HasPrefix(m.Source, "/run/verifmnt/") && r.Intn(2) == 0 {
+		// sources that bin/check's private mount namespace makes shared / slave / private: the
+		// branches of AdjustMounts that raise the rootfs propagation can succeed
+		m.Options = append(m.Options, pick(r, []string{"rshared", "rslave", "rslave", "rprivate"}))
 	}
 	return m
 }
@@ -614,6 +624,38 @@ func systematic(seed int64) []namedIn {
 		},
 		"mnt-rslave-sticky": func(_ *ResJ, _ *LinuxJ, a *AdjJ) {
 			a.Mounts = []MountJ{{"/p", "bind", "/src/0", []string{"rprivate"}}, {"/q", "bind", "/src/1", []string{"rslave", "rprivate"}}, {"/r", "bind", "/", []string{"rslave"}}}
+			a.Linux = nil
+		},
+		"mnt-host-rshared": func(_ *ResJ, _ *LinuxJ, a *AdjJ) {
+			a.Mounts = []MountJ{{"/p", "bind", hostShared, []string{"rshared"}}}
+			a.Linux = nil
+		},
+		"mnt-host-rslave": func(_ *ResJ, _ *LinuxJ, a *AdjJ) {
+			a.Mounts = []MountJ{{"/p", "bind", hostSlave, []string{"rslave"}}}
+			a.Linux = nil
+		},
+		"mnt-host-rslave-of-shared": func(_ *ResJ, _ *LinuxJ, a *AdjJ) {
+			a.Mounts = []MountJ{{"/p", "bind", hostShared + "/d", []string{"ro", "rslave"}}}
+			a.Linux = nil
+		},
+		"mnt-host-rshared-of-slave": func(_ *ResJ, _ *LinuxJ, a *AdjJ) {
+			a.Mounts = []MountJ{{"/p", "bind", hostSlave, []string{"rshared"}}}
+			a.Linux = nil
+		},
+		"mnt-host-rshared-then-rslave": func(_ *ResJ, _ *LinuxJ, a *AdjJ) {
+			a.Mounts = []MountJ{{"/p", "bind", hostShared, []string{"rshared"}}, {"/q", "bind", hostSlave, []string{"rslave"}}}
+			a.Linux = nil
+		},
+		"mnt-host-rslave-then-rshared": func(_ *ResJ, _ *LinuxJ, a *AdjJ) {
+			a.Mounts = []MountJ{{"/q", "bind", hostSlave, []string{"rslave"}}, {"/p", "bind", hostShared, []string{"rshared"}}}
+			a.Linux = nil
+		},
+		"mnt-host-sticky": func(_ *ResJ, _ *LinuxJ, a *AdjJ) {
+			a.Mounts = []MountJ{{"/p", "bind", hostShared, []string{"rslave"}}, {"/q", "bind", hostShared + "/d", []string{"ro"}}, {"/r", "bind", hostPrivate, []string{"rw"}}}
+			a.Linux = nil
+		},
+		"mnt-host-private-rslave": func(_ *ResJ, _ *LinuxJ, a *AdjJ) {
+			a.Mounts = []MountJ{{"/p", "bind", hostPrivate, []string{"rslave"}}}
 			a.Linux = nil
 		},
 		"nothing": func(_ *ResJ, _ *LinuxJ, a *AdjJ) { a.Linux = nil },
